@@ -162,6 +162,10 @@ def corpus():
               _call('tC', [['see'], ['sess_mutate'], ['see']], signed=True)], 0, [[900, 1]]),
         _arr([_call('tA', [['copy_off'], ['req_set', 'QUERY_STRING', 'o=tAo'], ['see']]),
               _call('tC', [['req_set', 'QUERY_STRING', 'o=tCo'], ['see']])], 0, [[500, 1]]),
+        # witness of the listed finding C08-listeners-shared (printed as KNOWN-FINDING on every run): tA keeps a listener
+        # registered while tC, served by another thread on the same application, changes ITS environ
+        _arr([_call('tA', [['listen_around', [['see']] * 6]]), _call('tC', [['req_set', 'HTTP_X_T', 'tCxt'], ['req_del']])],
+             0, [[550, 1]]),
         # answers without a body whose iterable has to be closed
         _arr([_call('tA', [['see'], ['gen', 2]], method='HEAD'), _call('tC', [['status', 204], ['ret', 'file']]),
               _call('tE', [['status', 304], ['gen', 1]])], 0, [[500, 1], [500, 2]]),
